@@ -80,6 +80,15 @@ def build_specs(ctx, d):
         g.append(spec("three-chains", "hashseed=12345", small, 3, a, hashseed="12345"))
         g.append(spec("three-chains", "hashseed=random+completion-order=(2, 1, 0)", small, 3, a, hashseed=None, env={"PHYCLONE_VERIF_END_DELAYS": delays((2, 1, 0), gap)}, want_order=[2, 1, 0]))
     groups.append(("three-chains", g))
+    if not ctx.quick:
+        # the other two proposals under all six completion orders, hash seed random throughout
+        for prop, extra in (("semi-adapted", ["--outlier-prob", 0.1]), ("fully-adapted", ["--no-concentration-update"])):
+            a = ["--proposal", prop, "--grid-size", 41] + extra
+            gname = "three-chains-" + prop
+            g = [spec(gname, "reference", small, 3, a)]
+            for order in orders:
+                g.append(spec(gname, "hashseed=random+completion-order=%s" % (order,), small, 3, a, hashseed=None, env={"PHYCLONE_VERIF_END_DELAYS": delays(order, gap)}, want_order=list(order)))
+            groups.append((gname, g))
     # --- clustered input with --assign-loss-prob: the loader itself draws from the seeded generator (10^4 choices per cluster)
     rows = runs.make_rows(ctx.rng, 10, 2, depth=(20, 40))
     for r in rows:
@@ -189,3 +198,31 @@ def run(ctx):
         "completion orders are forced with sleeps of 3 s per rank through the PHYCLONE_VERIF hook; the realised order is read back from the program's own 'Finished chain' lines",
         "PYTHONHASHSEED=random is one draw per run",
     ]
+
+
+def replay(ctx, doc):
+    """Re-run the reference and the recorded variation and compare again."""
+    import json
+
+    r = doc.get("replay", {})
+    print(json.dumps({k: v for k, v in r.items() if k != "input"}, indent=1))
+    d = runs.tmpdir("C18_replay_%d" % os.getpid())
+    args = list(r["args"])
+    if isinstance(r.get("input"), str) and "\t" in r["input"]:
+        p = os.path.join(d, "in.tsv")
+        open(p, "w").write(r["input"])
+        args[2] = p
+    outs = []
+    for tag, hs, env, ts in (("ref", "0", {}, None), ("var", r.get("PYTHONHASHSEED"), r.get("env") or {}, r.get("taskset"))):
+        a = list(args)
+        a[4] = os.path.join(d, tag + ".pkl.gz")
+        rc, out = runs.run_cli(a, hashseed=hs, env_extra=env, taskset=ts)
+        print(tag, "rc", rc)
+        outs.append(runs.canon_results(runs.read_trace(a[4])) if rc == 0 else None)
+    if outs[0] is None or outs[1] is None:
+        ctx.fail("C18:run:replay:run-failed", "a run failed on replay", r)
+        return
+    for c in outs[0]:
+        diff = runs.first_difference(outs[0][c], outs[1].get(c))
+        if diff:
+            ctx.fail("C18:run:replay:chains=%d" % len(outs[0]), "chain %d differs: %s" % (c, diff[:200]), r)
